@@ -113,7 +113,7 @@ def describe(tier):
         "rule": "all (max,min) in B x B with min<=0, min<=max, representable by some NumPy integer type, plus the one-argument form for every "
         "max in B (incl. negative); B = {c-1,c,c+1 for each constant c in fit_dtype's AST} u {+-2^k, +-2^k+-1, k<=64} u {0,+-1} u one interior point "
         "per gap. Plus the caller whose counter must reach the number of columns: collapsed() on indexes with %r columns (rows: all low / all common / one high among low / one common among low / one high among common / alternating), "
-        "five value triples and five precedence orders, against 'first listed value present in the row, else the last'. Non-trivial: min < 0 < max (both arguments decide) or a one-argument negative max. Oracle: narrowest numpy.iinfo type of the required signedness." % (COLLAPSE_COLS[tier],),
+        "nine value triples (incl. negative and large common values) and five precedence orders, against 'first listed value present in the row, else the last'; and the INDX coordinate word of files whose largest coordinate and common value run independently over %r (the word must be the narrowest that holds both). Non-trivial: min < 0 < max (both arguments decide) or a one-argument negative max. Oracle: narrowest numpy.iinfo type of the required signedness." % (COLLAPSE_COLS[tier], [str(v) for v in INDX_VALUES]),
         "bounds": {"ast_constants": [str(c) for c in consts], "threshold_only": ok, "notes": notes, "grid_size": len(grid(consts))},
         "exhaustive": True,
         "assumptions": [
@@ -131,12 +131,49 @@ def blocks(tier):
     out = [("two", {"i0": i, "i1": min(n, i + step)}) for i in range(0, n, step)]
     out.append(("one", {}))
     out += [("collapse", {"cols": c}) for c in COLLAPSE_COLS[tier]]
+    out.append(("indx-words", {}))
     return out
+
+
+# The third caller named in the statement: the INDX coordinate word must hold the largest coordinate AND the common value, and be the narrowest that does.
+INDX_VALUES = [0, 1, 255, 256, 65535, 65536, 2 ** 32 - 1, 2 ** 32, 2 ** 63 - 1]
+
+
+def check_indx_words(acc):
+    import struct
+
+    from .. import indx
+
+    for cmax in INDX_VALUES:
+        for common in INDX_VALUES:
+            for keys in ([(cmax,)], [(0, cmax)], [(cmax, 0), (1, 1)], [(1,), (cmax,)], []):
+                if len(set(keys)) < len(keys):
+                    continue
+                arrays = [[0, 2]] * len(keys)
+                case = {"indx_words": True, "keys": [list(k) for k in keys], "common": str(common)}
+                need = indx.narrowest(max([common] + [c for k in keys for c in k]))
+                try:
+                    blob = indx.lib_save(keys, arrays, common)
+                except Exception as e:  # noqa
+                    acc.violation("indx:save-raised", case, repr(e))
+                    continue
+                word = blob[16 + 1 + 4]
+                if word != need:
+                    acc.violation("indx:coordinate-word", case, "INDX index word size %d for largest coordinate %d and common %d: %s" % (word, max([0] + [c for k in keys for c in k]), common, "too narrow" if word < need else "wider than needed"))
+                else:
+                    try:
+                        dk, da, dc, iw, rw, size = indx.decode(blob)
+                        if dc != common or (keys and dk != [tuple(k) for k in keys]):
+                            acc.violation("indx:coordinate-word", case, "file decodes to common %r keys %r" % (dc, dk))
+                    except Exception as e:  # noqa
+                        acc.violation("indx:undecodable", case, repr(e))
+                acc.case(("indx", cmax, common, len(keys)), nontrivial=need > 1, outcome=("indx", need), sample=case)
+
 
 
 # The caller named in the statement whose counter must reach the NUMBER OF COLUMNS: collapsed() on indexes whose column count sits on a dtype boundary.
 COLLAPSE_COLS = {"quick": [2, 127, 128, 129, 255, 256, 257], "thorough": [2, 127, 128, 129, 255, 256, 257, 32767, 32768, 65535, 65536, 65537]}
-COLLAPSE_VALUES = [(1, 0, -1), (2, 0, 1), (1, 0, 200), (-1, 0, -2), (300, 5, 7)]   # (high, common, low)
+COLLAPSE_VALUES = [(1, 0, -1), (2, 0, 1), (1, 0, 200), (-1, 0, -2), (300, 5, 7), (1, -1, 0), (1, 300, 2), (0, -200, 1), (2, 70000, 1)]   # (high, common, low)
 
 
 def check_collapse(cols, acc):
@@ -214,6 +251,9 @@ def run_block(family, p, acc):
     if family == "collapse":
         check_collapse(p["cols"], acc)
         return
+    if family == "indx-words":
+        check_indx_words(acc)
+        return
     if family == "two":
         for mx in B[p["i0"]:p["i1"]]:
             for mn in B:
@@ -232,6 +272,12 @@ def replay(case, site=None):
     from ..core import Acc
 
     acc = Acc(ID, [], stop_at_first=False)
+    if case.get("indx_words"):
+        check_indx_words(acc)
+        hits = [v for v in acc.violations if v["case"] == case]
+        for v in hits:
+            print("  %s %s :: %s" % (v["site"], v["case"], v["detail"]))
+        return bool(hits)
     if "collapse_cols" in case:
         check_collapse(case["collapse_cols"], acc)
         for v in acc.violations:
